@@ -22,6 +22,7 @@ type c15Op struct {
 	Dirty bool   `json:"d,omitempty"` // set: the page is already dirty when it is inserted
 	Fresh bool   `json:"f,omitempty"` // set: a new page object even if the key is resident
 	N     int    `json:"n,omitempty"` // set: repeat for N consecutive keys (large capacities)
+	LSN   int    `json:"lsn,omitempty"` // set dirty / dirty: offset added to the log sequence number of the transition
 }
 
 type c15Case struct {
@@ -38,6 +39,10 @@ type c15Entry struct {
 type c15Model struct {
 	cap     int
 	entries []c15Entry
+	// the model's own view of which page objects are dirty: set by the
+	// operations, never read from the page (a dirty transition that does not
+	// take effect is exactly what loses an unsaved page)
+	dirty map[*btreeNode]bool
 }
 
 func (m *c15Model) find(k int) int {
@@ -65,7 +70,7 @@ func (m *c15Model) set(k int, n *btreeNode) (ok bool, evicted int, skippedDirty 
 	if len(m.entries) == m.cap {
 		victim := -1
 		for i := len(m.entries) - 1; i >= 0; i-- {
-			if !m.entries[i].node.isDirty() {
+			if !m.dirty[m.entries[i].node] {
 				victim = i
 				break
 			}
@@ -100,7 +105,7 @@ type c15Runner struct {
 }
 
 func newC15Runner(cap int) *c15Runner {
-	return &c15Runner{lru: NewLRU(cap), m: &c15Model{cap: cap}, nodes: map[int]*btreeNode{}}
+	return &c15Runner{lru: NewLRU(cap), m: &c15Model{cap: cap, dirty: map[*btreeNode]bool{}}, nodes: map[int]*btreeNode{}}
 }
 
 func (r *c15Runner) clone() *c15Runner {
@@ -110,15 +115,17 @@ func (r *c15Runner) clone() *c15Runner {
 	cp := map[*btreeNode]*btreeNode{}
 	for i := len(r.m.entries) - 1; i >= 0; i-- {
 		e := r.m.entries[i]
-		n := &btreeNode{dirty: e.node.dirty, fileOffset: e.node.fileOffset, isLeaf: e.node.isLeaf}
+		n := &btreeNode{dirty: e.node.dirty, lastLSN: e.node.lastLSN, fileOffset: e.node.fileOffset, isLeaf: e.node.isLeaf}
 		cp[e.node] = n
+		c.m.dirty[n] = r.m.dirty[e.node]
 		c.m.entries = append([]c15Entry{{e.key, n}}, c.m.entries...)
 	}
 	for e := r.lru.list.Back(); e != nil; e = e.Prev() {
 		ce := e.Value.(*cacheEntry)
 		n := cp[ce.val]
 		if n == nil {
-			n = &btreeNode{dirty: ce.val.dirty, fileOffset: ce.val.fileOffset, isLeaf: ce.val.isLeaf}
+			n = &btreeNode{dirty: ce.val.dirty, lastLSN: ce.val.lastLSN, fileOffset: ce.val.fileOffset, isLeaf: ce.val.isLeaf}
+			c.m.dirty[n] = r.m.dirty[ce.val]
 		}
 		el := c.lru.list.PushFront(&cacheEntry{key: ce.key, val: n})
 		c.lru.cache[ce.key] = el
@@ -127,7 +134,9 @@ func (r *c15Runner) clone() *c15Runner {
 		if x := cp[n]; x != nil {
 			c.nodes[k] = x
 		} else {
-			c.nodes[k] = &btreeNode{dirty: n.dirty, fileOffset: n.fileOffset, isLeaf: n.isLeaf}
+			nn := &btreeNode{dirty: n.dirty, lastLSN: n.lastLSN, fileOffset: n.fileOffset, isLeaf: n.isLeaf}
+			c.m.dirty[nn] = r.m.dirty[n]
+			c.nodes[k] = nn
 		}
 	}
 	c.evSkip, c.refused, c.evicts = r.evSkip, r.refused, r.evicts
@@ -143,7 +152,8 @@ func (r *c15Runner) step(op c15Op) string {
 			// a mix of leaf and internal pages, as in a real cache
 			n = &btreeNode{fileOffset: uint64(op.Key) * pageSize, isLeaf: op.Key%2 == 0}
 			if op.Dirty {
-				n.markDirty(1)
+				n.markDirty(3 + uint64(op.LSN))
+				r.m.dirty[n] = true
 			}
 			r.nodes[op.Key] = n
 		}
@@ -174,12 +184,16 @@ func (r *c15Runner) step(op c15Op) string {
 			return fmt.Sprintf("get(%d) returned a different page object than the one most recently stored", op.Key)
 		}
 	case "dirty":
+		// (log sequence numbers may go down as well as up: after a crash the counter is
+		// rebuilt, and replay stamps pages with the numbers of old records)
 		if i := r.m.find(op.Key); i >= 0 {
-			r.m.entries[i].node.markDirty(2)
+			r.m.entries[i].node.markDirty(2 + uint64(op.LSN))
+			r.m.dirty[r.m.entries[i].node] = true
 		}
 	case "clean":
 		if i := r.m.find(op.Key); i >= 0 {
 			r.m.entries[i].node.markClean()
+			r.m.dirty[r.m.entries[i].node] = false
 		}
 	}
 	return r.compare()
@@ -205,6 +219,9 @@ func (r *c15Runner) compare() string {
 		if el, ok := r.lru.cache[ce.key]; !ok || el != e {
 			return fmt.Sprintf("index and list disagree for key %v", ce.key)
 		}
+		if ce.val.isDirty() != r.m.dirty[want.node] {
+			return fmt.Sprintf("page %d reports dirty=%v after its last dirty/clean transition, expected %v", want.key, ce.val.isDirty(), r.m.dirty[want.node])
+		}
 		i++
 	}
 	return ""
@@ -217,7 +234,7 @@ func (r *c15Runner) describe() string {
 		got += fmt.Sprintf("%v%s ", ce.key, map[bool]string{true: "*", false: ""}[ce.val.isDirty()])
 	}
 	for _, e := range r.m.entries {
-		want += fmt.Sprintf("%v%s ", e.key, map[bool]string{true: "*", false: ""}[e.node.isDirty()])
+		want += fmt.Sprintf("%v%s ", e.key, map[bool]string{true: "*", false: ""}[r.m.dirty[e.node]])
 	}
 	return fmt.Sprintf("cache (most recent first, * dirty) [%s] expected [%s]", got, want)
 }
@@ -302,6 +319,9 @@ func c15Gen(t *rapid.T) c15Case {
 		if op.Op == "set" {
 			op.Dirty = rapid.IntRange(0, 3).Draw(t, "setdirty") == 0
 			op.Fresh = rapid.IntRange(0, 3).Draw(t, "fresh") == 0
+		}
+		if op.Op == "dirty" || op.Dirty {
+			op.LSN = rapid.SampledFrom([]int{0, 0, 1, 5, 40}).Draw(t, "lsn")
 		}
 		c.Ops = append(c.Ops, op)
 	}
